@@ -41,7 +41,18 @@ def writer_paths(chk, fx, a, variant):
     st.cells[("obj", "self")] = val
     rets = eng.analyse(f["key"], args=[VRef(("obj", "self")), None], state=st, name="Message::write(%s)" % variant)
     record_engine(chk, eng, "Message::write(%s): %d paths" % (variant, len(rets)))
-    return eng, [(s, layout.wtokens(eng, s)) for s, _ in rets]
+    out = []
+    for s, _ in rets:
+        wt = layout.wtokens(eng, s)
+        # the flag word may be emitted as a constant per path or assembled from boolean bits: resolve to constants
+        alts = layout.resolve_word(eng, s, wt[0]["val"]) if wt and wt[0]["k"] == "int" and wt[0]["prov"][0] != "const" else None
+        if alts:
+            for s2, w in alts:
+                wt2 = [dict(wt[0], prov=("const", w))] + wt[1:]
+                out.append((s2, wt2))
+        else:
+            out.append((s, wt))
+    return eng, out
 
 
 def reader_paths(chk, fx, a):
